@@ -379,6 +379,89 @@ Definition stack_flows (data : list Z) : outcome stack :=
   end.
 
 (* ------------------------------------------------------------------------- *)
+(* One layer object reused for a sequence of packets (DecodingLayer / DecodingLayerParser style:
+   x.DecodeFromBytes(pkt1); x.XFlow(); x.DecodeFromBytes(pkt2); x.XFlow(); ...), the packets
+   arriving either in fresh slices or in ONE capture buffer overwritten in place.
+
+   The flow accessor is a function of the layer's current address fields only (there is no
+   memo: ethernet.go:38-40, ip4.go:63-65, ip6.go:49-51, tcp.go:614-616, udp.go:132-134,
+   sctp.go:44-46, linux_sll.go:67-77, linux_sll2.go:107-117 all build the flow from the fields at
+   every call).  The address fields are sub-slices of the buffer of the last packet whose decode
+   assigned them: a view (buffer index, address length); the offsets are those of the kind.  A
+   decode that fails before the assignment leaves the view alone, so the object keeps pointing
+   into the earlier buffer - whose bytes are the earlier packet's (fresh slices) or whatever the
+   capture buffer holds now (reused buffer). *)
+
+(* does DecodeFromBytes assign the address fields?  Ok (Some alen): yes (alen: the address
+   length of the SLL kinds, 0 otherwise); Ok None: it returns before *)
+Definition seq_assign (k : lkind) (data : list Z) : outcome (option nat) :=
+  let n := length data in
+  match k with
+  | LEthernet => Ok (if (n <? 14)%nat then None else Some 0%nat)
+  | LIPv4 => match ip4_decode data with
+             | Ok _ => Ok (Some 0%nat) | Err _ => Ok None | Panic s => Panic s end
+  | LIPv6 => if (n <? 40)%nat then Ok None else if nthZ data 6 =? 0 then Err 98 else Ok (Some 0%nat)
+  | LTCP => if negb (tcp_in_scope data) then Err 98
+            else Ok (if (n <? 20)%nat then None else Some 0%nat)
+  | LUDP => Ok (if (n <? 8)%nat then None else Some 0%nat)
+  | LSCTP => Ok (if (n <? 12)%nat then None else Some 0%nat)
+  | LLinuxSLL =>
+    if (n <? 16)%nat then Ok None else
+    let hi := be16 data 4 + 6 in
+    if Z.of_nat n <? hi then Ok None else Ok (Some (Z.to_nat hi - 6)%nat)
+  | LLinuxSLL2 =>
+    if (n <? 20)%nat then Ok None else
+    let al := nthZ data 11 in
+    if Z.of_nat n - 12 <? al then Ok None else Ok (Some (Z.to_nat al))
+  | _ => Err 97       (* FDDI, PPP, RUDP, UDPLite have no DecodeFromBytes *)
+  end.
+
+(* the flow built from address fields that view `content` *)
+Definition seq_read (k : lkind) (content : list Z) (alen : nat) : outcome flow :=
+  match k with
+  | LLinuxSLL => new_flow EndpointMAC (trunc16 (slice content 6 (6 + alen))) []
+  | LLinuxSLL2 => new_flow EndpointMAC (trunc16 (slice content 12 (12 + alen))) []
+  | _ => table_flow k content
+  end.
+(* ... and from fields never assigned (nil slices) *)
+Definition seq_empty (k : lkind) : outcome flow :=
+  match k with
+  | LLinuxSLL | LLinuxSLL2 => empty_flow EndpointMAC
+  | _ => match flow_table k with Some (t, _, _, _) => empty_flow t | None => Panic 97 end
+  end.
+
+Record sstate := mkSS {
+  ss_bufs : list (list Z);        (* fresh mode: the buffers handed in so far (immutable) *)
+  ss_cap : list Z;                (* reused mode: the capture buffer's current contents *)
+  ss_view : option (nat * nat)    (* where the address fields point: (buffer index, alen) *)
+}.
+Definition sstate0 : sstate := mkSS [] [] None.
+
+(* writing a packet at the start of the capture buffer keeps the older bytes behind it *)
+Definition overlay (pkt cap : list Z) : list Z := pkt ++ skipn (length pkt) cap.
+
+Definition seq_step (k : lkind) (reuse : bool) (s : sstate) (pkt : list Z) : sstate * outcome flow :=
+  let bufs' := ss_bufs s ++ [pkt] in
+  let cap' := overlay pkt (ss_cap s) in
+  match seq_assign k pkt with
+  | Err c => (mkSS bufs' cap' (ss_view s), Err c)
+  | Panic p => (mkSS bufs' cap' (ss_view s), Panic p)
+  | Ok a =>
+    let view' := match a with Some al => Some (length (ss_bufs s), al) | None => ss_view s end in
+    (mkSS bufs' cap' view',
+     match view' with
+     | None => seq_empty k
+     | Some (b, al) => seq_read k (if reuse then cap' else nth b bufs' []) al
+     end)
+  end.
+
+Fixpoint seq_run (k : lkind) (reuse : bool) (s : sstate) (pkts : list (list Z)) : list (outcome flow) :=
+  match pkts with
+  | [] => []
+  | p :: rest => let '(s', o) := seq_step k reuse s p in o :: seq_run k reuse s' rest
+  end.
+
+(* ------------------------------------------------------------------------- *)
 (* the operation interpreter run by the correspondence check *)
 Inductive op :=
 | ONewE (t : Z) (raw : list Z)
@@ -392,7 +475,8 @@ Inductive op :=
 | OCmpE (i j : nat)
 | OCmpF (k l : nat)
 | OLayer (k : lkind) (data : list Z)
-| OPacket (data : list Z).
+| OPacket (data : list Z)
+| OSeq (k : lkind) (reuse : bool) (pkts : list (list Z)).
 
 Record state := mkS { s_eps : list endpoint; s_fls : list flow }.
 Definition init : state := mkS [] [].
@@ -412,7 +496,8 @@ Inductive obs :=
 | BBoth (e : eview) (f : fview)
 | BCmpE (eq lt gt look : bool)
 | BCmpF (eq look hasheq : bool)
-| BStack (l n t : option fview).
+| BStack (l n t : option fview)
+| BSeq (fs : list (outcome fview)).
 
 Definition push_e (s : state) (es : list endpoint) : state := mkS (s_eps s ++ es) (s_fls s).
 Definition push_f (s : state) (f : flow) : state := mkS (s_eps s) (s_fls s ++ [f]).
@@ -486,6 +571,8 @@ Definition step (s : state) (o : op) : state * obs :=
     | Err c => (s, BErr c)
     | Panic _ => (s, BPanic)
     end
+  | OSeq k reuse pkts =>
+    (s, BSeq (map (omap view_f) (seq_run k reuse sstate0 pkts)))
   end.
 
 Fixpoint run_trace_from (s : state) (ops : list op) : list obs :=
